@@ -1105,6 +1105,9 @@ station_lookup(vbi_cni_type type, int cni, const char **country, const char **na
 
 		cni &= 0x0FFF;
 
+		if (0 == cni)
+			break; /* cni4 0 means no VPS code */
+
 		/* fall through */
 
 	case VBI_CNI_TYPE_VPS:
